@@ -68,7 +68,7 @@ fn boundaries(unit: u64) -> Vec<u64> {
     v
 }
 
-fn strategy() -> impl Strategy<Value = Case> {
+pub fn strategy() -> impl Strategy<Value = Case> {
     prop::sample::select(vec![1000u64, 1_000_000]).prop_flat_map(|unit| {
         let max = (1u64 << 32) * unit - 1;
         prop_oneof![
